@@ -12,6 +12,26 @@ package watch
 //@ func (*watch.GarbageCollector).GarbageCollectWatchesNow
 //@ props C13
 //@ let $running = result (watch.ControllerEngine).GetWatches
+//@ let $refs = result (*composite.Unstructured).GetResourceReferences
+// The in-use set is built from every listed XR (deleting ones included: they still reference
+// their composed resources) and from every one of its references: `consulted` counts the XRs
+// whose references were read, `expected` their references, `marked` the map updates made.
+//@ ghost consulted int = 0
+//@ ghost expected int = 0
+//@ ghost marked int = 0
+//@ site (*composite.Unstructured).GetResourceReferences($x)
+//@   assert [C13:references-read-from-the-listed-xr] $x.Object == u.Object
+//@   update consulted = consulted + 1
+//@   update expected = expected + len(result)
+//@ site builtin.mapupdate($m, $k, $v) as mark-used
+//@   where $m == used
+//@   assert [C13:marks-the-referenced-kind-used] $v && $k.Type == "ComposedResource" && $k.GVK == schema.FromAPIVersionAndKind(ref.APIVersion, ref.Kind)
+//@   update marked = marked + 1
+//@ loop range l.Items
+//@   invariant [C13:every-listed-xr-is-consulted] consulted == done
+//@   invariant [C13:every-reference-of-a-consulted-xr-is-marked] marked == expected
+//@ loop range xr.GetResourceReferences()
+//@   invariant [C13:references-marked-so-far] marked == expected - len($refs) + done
 //@ loop range running
 //@   invariant [C13:collect-only-composed] forall i :: 0 <= i && i < len(stop) ==> stop[i].Type == "ComposedResource"
 //@   invariant [C13:collect-only-unused] forall i :: 0 <= i && i < len(stop) ==> !used[stop[i]]
